@@ -20,10 +20,13 @@ CHECKS = {
          'Histories over append/mark_clean/mark_dirty/is_clean/sleep/reopen with a probe of every topic after each reopen against a boolean-per-topic model; reopen happens at 0..250 ms after the last call, in a fresh process or in-process.',
          'After a failed append or an empty batch the marker state is unspecified and the model accepts either value until the next defining call.', '§5 C17'),
  'C15': ('E1', 'exploration', 'model-based property testing with count probes after every operation',
-         'Count and count-map probes after every operation of generated histories with rejected operations, peeks, offset reads and restarts, compared with appended-consumed of the FIFO model.',
-         'Counts after an AtLeastOnce restart are not judged.', '§5 C15'),
+         'Count and count-map probes after every operation of generated histories with rejected operations, peeks, offset reads and restarts, compared with appended-consumed of the FIFO model; plus counts at quiescence after scheduled producer/consumer races.',
+         'Counts after an AtLeastOnce restart are not judged. The concurrent clause runs under the H2 token scheduler (cfg walrus_verif).', '§5 C15'),
 }
 CHECKS.update({
+ 'C05': ('E3', 'exploration', 'schedule-controlled concurrency testing (H2 token scheduler: generated thread programs x generated schedules, plus preemption-bounded enumeration of all schedules of small two-thread programs) with an exactly-once / real-time-order oracle',
+         'Real threads run the real engine one at a time; at every lock-free yield point of the read/append paths the generated schedule decides who continues, so interleavings are inputs and replayable. Oracle: delivered multiset == successfully appended multiset, per-producer order inside each read result and between reads ordered in real time, batch contiguity; a producers-only variant checks the drained serialisation.',
+         'Yield points exist only where the engine holds no lock, so data races inside critical sections are outside the explored space. Overlapping reads are not ordered against each other.', '§5 C05'),
  'C04': ('E2', 'fault_enumeration', 'fault injection over generated workloads (H1 I/O seam: every I/O event of every append/batch fails with an errno or completes short) plus model-based histories with operations the engine must reject; FIFO model in which a failed call never happened',
          'Rejected operations (2001 entries, >10 GiB, >1 GiB entry, empty batch, over-long topic names) inside generated histories with restarts; and for generated workloads, every I/O event of every append / batch append (block write, io_uring SQE, submit, flush, file create/set_len/fsync, dir fsync - the latter reached by histories that first allocate 96..99 blocks) is made to fail or complete short, after which all later reads, appends, a drain, a fresh-process reopen and a second drain must agree with the model in which the failed call never happened.',
          'An injected fault stands for an I/O error reported by the kernel. Visibility of a successful batch to concurrent readers is checked by C05.', '§5 C04'),
@@ -87,6 +90,7 @@ m = {
  },
  'engines': [
    {'name': 'E1', 'path': 'harness/src/{absop,interp,model}.rs', 'serves_properties': ['C01','C02','C03','C06','C14','C15','C16','C17'], 'kind_free_text': 'sequential model-based search: proptest-generated abstract histories, interpreted against a FIFO reference model, executed in child processes on the real engine'},
+   {'name': 'E3', 'path': 'harness/src/props/conc.rs, harness/src/conc.rs', 'serves_properties': ['C05','C15'], 'kind_free_text': 'schedule-controlled concurrency: thread programs executed under the H2 token scheduler (cfg walrus_verif), schedules generated by proptest or enumerated with a preemption bound'},
    {'name': 'E2', 'path': 'harness/src/props/crash.rs', 'serves_properties': ['C04','C07','C08','C09'], 'kind_free_text': 'crash-point enumeration: E1 workloads traced through the H1 I/O seam, re-executed with the process terminated at each selected event, recovered in a fresh process and judged against the acknowledged history'},
  ],
  'checks': checks,
